@@ -251,9 +251,10 @@ def run_rt(prog):
     # src_keys holds only KeyCode / NoOp
     f = prog.fn("kanata_parser::cfg::create_defsrc_layer")
     kinds = set()
-    for bi, si, st in f.all_rvalues():
-        if st["rv"]["k"] == "agg" and st["rv"].get("adt") == "kanata_keyberon::action::Action":
-            kinds.add(st["rv"]["v"])
+    for g in [f] + list(prog.closures_of(f)):       # `array::from_fn(|i| ..)`: the actions may be built in a closure
+        for bi, si, st in g.all_rvalues():
+            if st["rv"]["k"] == "agg" and st["rv"].get("adt") == "kanata_keyberon::action::Action":
+                kinds.add(st["rv"]["v"])
     res.inst("src_keys-contents", variants=sorted(kinds))
     if not kinds or not kinds <= {"KeyCode", "NoOp"}:
         res.viol("src_keys-contents", f.loc, "create_defsrc_layer stores %s in the defsrc row; Src recursion is only bounded for KeyCode/NoOp" % sorted(kinds))
